@@ -199,36 +199,40 @@ impl Deref for Packet {
 }
 
 fn packet(i: &[u8]) -> nom::IResult<&[u8], (u8, Packet)> {
-    nom::combinator::map(
-        nom::sequence::pair(
-            nom::multi::fold_many0(
-                fullpacket,
-                || (0, None),
-                |(seq, pkt): (u8, Option<Packet>), (nseq, p)| {
-                    let pkt = if let Some(mut pkt) = pkt {
-                        assert_eq!(nseq, seq.wrapping_add(1));
-                        pkt.extend(p);
-                        Some(pkt)
-                    } else {
-                        Some(Packet(Vec::from(p)))
-                    };
-                    (nseq, pkt)
-                },
-            ),
-            onepacket,
+    // a message is zero or more maximum-size fragments followed by a shorter one; the sequence
+    // ids of its fragments must be consecutive (modulo 256)
+    let (rest, (full, last)) = nom::sequence::pair(
+        nom::multi::fold_many0(
+            fullpacket,
+            || (0u8, None, true),
+            |(seq, pkt, in_order): (u8, Option<Packet>, bool), (nseq, p)| {
+                if let Some(mut pkt) = pkt {
+                    pkt.extend(p);
+                    (nseq, Some(pkt), in_order && nseq == seq.wrapping_add(1))
+                } else {
+                    (nseq, Some(Packet(Vec::from(p))), in_order)
+                }
+            },
         ),
-        move |(full, last)| {
-            let seq = last.0;
-            let pkt = if let Some(mut pkt) = full.1 {
-                assert_eq!(last.0, full.0.wrapping_add(1));
-                pkt.extend(last.1);
-                pkt
-            } else {
-                Packet(Vec::from(last.1))
-            };
-            (seq, pkt)
-        },
-    )(i)
+        onepacket,
+    )(i)?;
+
+    let seq = last.0;
+    let pkt = if let Some(mut pkt) = full.1 {
+        if !full.2 || last.0 != full.0.wrapping_add(1) {
+            // out-of-order fragments: not recoverable by reading more
+            // (no input in the error: it would be formatted, and can be many megabytes)
+            return Err(nom::Err::Failure(nom::error::Error::new(
+                &i[..0],
+                nom::error::ErrorKind::Verify,
+            )));
+        }
+        pkt.extend(last.1);
+        pkt
+    } else {
+        Packet(Vec::from(last.1))
+    };
+    Ok((rest, (seq, pkt)))
 }
 
 #[cfg(test)]
